@@ -7,7 +7,6 @@ package main
 import (
 	"bytes"
 	"encoding/json"
-	"errors"
 	"fmt"
 	"io"
 	"net/http"
@@ -60,7 +59,7 @@ type result struct {
 	Bound        int            `json:"bound"`
 }
 
-var errInjected = errors.New("injected I/O failure")
+var errInjected = faultIdentities[0]
 
 func newRegistry() *minify.M {
 	m := minify.New()
